@@ -19,6 +19,13 @@ for n in names:
             sig = mm.group(1); break
     if not sig:
         sig = "violation" if (mx.get("caught") or m["checks"].get(pid, {}).get("exit") == 1) else "MISSED"
+    if sig == "MISSED":
+        # not caught by the owning check: caught by the check of the property the change really breaks?
+        for other, r in sorted(m["checks"].items()):
+            if other != pid and r.get("exit") == 1:
+                mm = re.search(r"(C\d\d\|[^\s:]+)", " ".join(r.get("first_signatures") or []))
+                sig = "by %s: %s" % (other, mm.group(1) if mm else "violation")
+                break
     if len(sig) > 72:
         sig = sig[:72] + "…"
     files = sorted({l[6:].strip() for l in open(os.path.join(root, n, "patch.diff")) if l.startswith("+++ b/")})
@@ -43,6 +50,16 @@ text.append("%d seeded changes (two per property and wave; wave 1+2 = `-1`/`-2`,
             "quick tier as it was when the seed arrived, %d were missed and are caught after the check was strengthened - never by\n"
             "special-casing the seed: each change widened a generator or added an oracle that follows from the property text.\n"
             "Several agents arrived at the same change independently (marked \"same idea as\").\n" % (total, total - len(missed), len(missed)))
+wave = lambda n: {1: "1+2", 2: "1+2", 3: "3", 4: "3", 5: "4", 6: "4", 7: "5", 8: "5", 9: "6", 10: "6"}[int(n.split("-")[1])]
+per = {}
+for n in names:
+    per.setdefault(wave(n), [0, 0])[0] += 1
+for n, _ in missed:
+    per[wave(n)][1] += 1
+text.append("Missed at first, per wave: " + ", ".join("wave %s: %d of %d" % (w, per[w][1], per[w][0]) for w in sorted(per)) +
+            ". The prompts changed between waves (3: away from the obvious function; 4: helpers, storage, HTTP layer, faults and concurrency;\n"
+            "5: same with a warning that the obvious sites were taken; 6: one data- / configuration-dependent change and one interaction of two\n"
+            "features per agent) - the miss rate follows the novelty of the prompt, not the age of the checks.\n")
 text.append("\n".join(lines))
 text.append("\nWhat the %d misses taught (the generator / oracle change is general, the seed only exposed the hole):\n" % len(missed))
 text.append("\n".join("* **%s** - %s." % (n, h.rstrip(".")) for n, h in missed))
